@@ -77,6 +77,11 @@ class CutPoint:
             return SymRange(r.start, r.stop, r.step)
         from .arrays import I0, SymArray
 
+        if hasattr(r, "_sym_item") and hasattr(r, "_sym_len"):
+            # a sequence of symbolic length: iterate its index range, the loop target is the item
+            rr = SymRange(0, r._sym_len(), 1)
+            rr.seq = r
+            return rr
         if isinstance(r, SymArray) and r.sort == "int":
             # np.arange(n) / np.arange(a, b): elem(i) = i + c
             c = z3.simplify(r._elem(I0) - I0)
@@ -103,12 +108,14 @@ class CutPoint:
         c.assume(r.in_range(i))
         for name, cond in self.hooks.inv(c, i, r):
             c.assume(cond)
-        return i
+        self._cur = i
+        seq = getattr(r, "seq", None)
+        return seq._sym_item(i) if seq is not None else i
 
     def end(self, r, i):
         r = self._as_range(r)
         c = self._ctx()
-        nxt = i + r.step
+        nxt = self._cur + r.step
         for name, cond in self.hooks.inv(c, nxt, r):
             c.prove(f"{self.label}: invariant preserved by the loop body: {name}", cond)
         raise PathStop("cut-point: end of arbitrary iteration")
